@@ -1,4 +1,6 @@
 """C05 — coefficient/constant packing contract and enabled_coefficients are truthful."""
+import os
+
 import numpy as np
 
 from .. import cjit, corpus, kernels, layout_checks as L, lean, numeric, pipeline
@@ -39,6 +41,24 @@ def tuple_space(chk, c):
         space = sorted(keep)
         chk.notes.setdefault("reduced_entity_perm_products", []).append(f"{c.name}: {len(space)} of {full}")
     return space
+
+
+class _ReplyTimeout:
+    """reply time limit of harness.lean.Driver.ask (VERIF_DRIVER_TIMEOUT, read per request) for the requests inside the block:
+    one execReads run of the largest demo kernel (HyperElasticity, 2744 points) takes > 10 minutes"""
+
+    def __init__(self, seconds):
+        self.seconds = seconds
+
+    def __enter__(self):
+        self.old = os.environ.get("VERIF_DRIVER_TIMEOUT")
+        os.environ["VERIF_DRIVER_TIMEOUT"] = str(max(self.seconds, float(self.old or 0)))
+
+    def __exit__(self, *a):
+        if self.old is None:
+            os.environ.pop("VERIF_DRIVER_TIMEOUT", None)
+        else:
+            os.environ["VERIF_DRIVER_TIMEOUT"] = self.old
 
 
 def _sx(xs):
@@ -88,12 +108,18 @@ def read_sets(chk, d, ents):
             # tuple of small products and for at most ~64 evenly spaced tuples (first and last included) of large ones
             step = max(1, len(space) // 64)
             with_c = [k % step == 0 or k == len(space) - 1 for k in range(len(space))]
+            giant = len(c.ast_sexp) > 2_000_000  # HyperElasticity-sized kernels: one execReads run takes minutes
+            if giant:
+                with_c = [False] * len(space)
+                chk.notes.setdefault("c_reads_skipped_giant_kernel", []).append(c.name)
+            chunk = max(1, min(128, 40_000_000 // max(1, len(c.ast_sexp))))
             tl = [f"({_sx(ent)} {_sx(prm)} {'true' if wc else 'false'})" for (ent, prm), wc in zip(space, with_c)]
             r, failed = ["ok"], None
-            for k0 in range(0, len(tl), 128):  # one request per 128 tuples (the driver's reply timeout is per request)
-                rk = d.ask(f"(coefreads {c.ast_sexp} {width} {_sx(dims)} {_sx('true' if f else 'false' for f in flags)} "
-                           f"{shape_inputs(c, ent0, prm0)} {' '.join(tl[k0:k0 + 128])})")
-                if rk[0] != "ok" or len(rk) != 1 + len(tl[k0:k0 + 128]):
+            for k0 in range(0, len(tl), chunk):  # ≤ 128 tuples per request (fewer for big ASTs): the driver's reply timeout is per request
+                with _ReplyTimeout(3600):
+                    rk = d.ask(f"(coefreads {c.ast_sexp} {width} {_sx(dims)} {_sx('true' if f else 'false' for f in flags)} "
+                               f"{shape_inputs(c, ent0, prm0)} {' '.join(tl[k0:k0 + chunk])})")
+                if rk[0] != "ok" or len(rk) != 1 + len(tl[k0:k0 + chunk]):
                     failed = rk
                     break
                 r += rk[1:]
